@@ -41,6 +41,39 @@ def find_in_order(text: str, parts: t.Sequence[str]) -> t.Optional[str]:
     return None
 
 
+def find_path(text: str, path: t.Sequence[str], then: t.Optional[str] = None) -> t.Optional[str]:
+    """Path components must occur in nesting order *as field names*: each is delimited by a quote or a dot
+    (the renderer prints "field 'a.b.c'"), optionally followed by ``then``."""
+    import re
+    pos = 0
+    for comp in path:
+        m = re.compile(r"(?<=['.])" + re.escape(comp) + r"(?=['.])").search(text, pos)
+        if m is None:
+            return comp
+        pos = m.end()
+    if then is not None and text.find(then, pos) < 0:
+        return then
+    return None
+
+
+def alternatives(tree: t.Any) -> int:
+    """Number of '- ' bullets a complete rendering must contain: one per (flattened) alternative of every sum."""
+    from pane.errors import ProductErrorNode, SumErrorNode
+    if isinstance(tree, SumErrorNode):
+        n = 0
+        for c in tree.children:
+            if isinstance(c, SumErrorNode):
+                # nested sums are flattened one level by the renderer
+                for cc in c.children:
+                    n += 1 + (alternatives(cc) if not isinstance(cc, SumErrorNode) else alternatives(cc))
+            else:
+                n += 1 + alternatives(c)
+        return n
+    if isinstance(tree, ProductErrorNode):
+        return sum(alternatives(c) for c in tree.children.values())
+    return 0
+
+
 def check(case: t.Any, ctx: Ctx) -> None:
     import pane
     from pane.errors import ProductErrorNode, SumErrorNode, DuplicateKeyError, WrongLenError
@@ -103,7 +136,7 @@ def check(case: t.Any, ctx: Ctx) -> None:
             return f"duplicate key {n.key!r} under path {path} is not named (missing {miss!r})" if miss else None
         exp = str(n.expected)
         # the statement asks for the expectation of every *leaf*; intermediate products may be fused into 'a.b.c'
-        miss = find_in_order(text, [*path] if isinstance(n, ProductErrorNode) else [*path, exp])
+        miss = find_path(text, path) if isinstance(n, ProductErrorNode) else find_path(text, path, exp)
         if miss is not None:
             return f"path {'.'.join(path) or '<root>'} with expectation {exp!r}: {miss!r} does not occur in nesting order"
         if isinstance(n, ProductErrorNode):
@@ -137,6 +170,12 @@ def check(case: t.Any, ctx: Ctx) -> None:
     r = walk(tree, (), False)
     if r is not None:
         ctx.fail('render-complete', nd.kind, f"{ident}; {r}\n--- text ---\n{text[:600]}")
+        return
+    import re as _re
+    bullets = len(_re.findall(r'^\s*- ', text, flags=_re.M))
+    need = alternatives(tree)
+    if bullets < need:
+        ctx.fail('render-complete', 'alternatives', f"{ident}; the tree has {need} union alternatives, the text lists only {bullets}\n--- text ---\n{text[:600]}")
         return
     if isinstance(tree, SumErrorNode) or st_['sum']:
         # every sum shows one offending value
